@@ -42,7 +42,7 @@ def _guard(fn, label, site):
         return None, [Ob(label, False, dict(site, exc=type(e).__name__), info=repr(e)[:300])]
 
 
-def body_struct_msg(kind, cname, falsify=False):
+def body_struct_msg(kind, cname, falsify=False, spec_buffer=False):
     fields = (HOST_FIELDS if kind == "host" else RET_FIELDS)[cname]
     deser = M.deserialize_host_msg if kind == "host" else M.deserialize_return_msg
 
@@ -53,7 +53,20 @@ def body_struct_msg(kind, cname, falsify=False):
         cls = getattr(M, cname)
         vals = {n: inp.bv(n, bits, signed) for n, bits, signed in fields}
         site = {"msg": cname}
-        back, err = _guard(lambda: deser(bytes(cls(**vals))), "roundtrip_raises", site)
+        def roundtrip():
+            raw = bytes(cls(**vals))
+            if not spec_buffer:
+                return deser(raw)
+            # the receiver reads from a reusable receive buffer (bytearray) that is overwritten by the next message afterwards:
+            # the deserialised message must keep its values
+            buf = bytearray(raw)
+            msg = deser(buf)
+            for i in range(len(buf)):
+                buf[i] = 0
+            return msg
+        if spec_buffer:
+            site["from"] = "reused_bytearray"
+        back, err = _guard(roundtrip, "roundtrip_raises", site)
         if err:
             return err
         obs = [Ob("class", type(back) is cls, site)]
@@ -189,6 +202,10 @@ def bodies(tier):
         out.append((("struct", "host", cname), body_struct_msg("host", cname)))
     for cname in RET_FIELDS:
         out.append((("struct", "ret", cname), body_struct_msg("ret", cname)))
+    for cname in list(HOST_FIELDS)[:2]:
+        out.append((("struct", "host", cname, "buffer"), None))
+    for cname in list(RET_FIELDS)[:2]:
+        out.append((("struct", "ret", cname, "buffer"), None))
     out.append((("signal",), body_signal))
     out.append((("error",), body_error))
     for b in range(4):
@@ -214,7 +231,7 @@ def long_pattern(n):
 def body_from_key(key):
     k = key[0]
     if k == "struct":
-        return body_struct_msg(key[1], key[2])
+        return body_struct_msg(key[1], key[2], spec_buffer=len(key) > 3)
     if k == "signal":
         return body_signal
     if k == "error":
